@@ -15,14 +15,15 @@ import (
 
 // Candidate is a violation found by a worker, before minimisation.
 type Candidate struct {
-	RunIndex    int      `json:"run_index"`
-	Seed        uint64   `json:"seed"`
-	Variant     string   `json:"variant"`
-	Tape        []uint64 `json:"tape"`
-	Prop        string   `json:"property"`
-	Oracle      string   `json:"oracle"`
-	Fingerprint string   `json:"fingerprint"`
-	Msg         string   `json:"message"`
+	RunIndex    int             `json:"run_index"`
+	Seed        uint64          `json:"seed"`
+	Variant     string          `json:"variant"`
+	Tape        []uint64        `json:"tape"`
+	Prop        string          `json:"property"`
+	Oracle      string          `json:"oracle"`
+	Fingerprint string          `json:"fingerprint"`
+	Msg         string          `json:"message"`
+	Special     json.RawMessage `json:"special,omitempty"`
 }
 
 // WorkerResult is what a worker process hands back to the driver.
@@ -84,7 +85,7 @@ func cmdWorker(args []string) int {
 	fs.Parse(args)
 
 	known := loadKnown()
-	res := &WorkerResult{Faults: map[string]int{}, Probes: map[string]int{}, KnownSeen: map[string]int{}, OtherProps: map[string]int{}}
+	res := &WorkerResult{Faults: map[string]int{}, Probes: map[string]int{}, KnownSeen: map[string]int{}, OtherProps: map[string]int{}, Extra: map[string]int{}}
 	sigs := map[string]bool{}
 	var current Candidate
 	write := func() {
